@@ -169,12 +169,6 @@ func (c *Config) Add(ident, key, value string, isGlobal bool) {
 }
 
 func (c *Config) Write(configPath string, isGlobal bool) error {
-	f, err := os.Create(configPath)
-	if err != nil {
-		return err
-	}
-	defer f.Close()
-
 	var content string
 	var kvs map[string]kv
 	if isGlobal {
@@ -189,9 +183,5 @@ func (c *Config) Write(configPath string, isGlobal bool) error {
 		}
 	}
 
-	_, err = f.WriteString(content)
-	if err != nil {
-		return err
-	}
-	return nil
+	return writeFileAtomic(configPath+".tmp", configPath, []byte(content))
 }
